@@ -241,7 +241,7 @@ func mutants(s string) []string {
 // and with the anchored reading (= the specification, by C16_accept_is_sentence / C16_reject_is_not_sentence).
 func C16(e *core.Env) {
 	res := e.Res
-	res.Rule = "strings = sentences of the path grammar with <= N leaves (N=3 quick, 5 thorough) over ex.a/ex.b/ex.c^/@type in canonical layout, " +
+	res.Rule = "a history of 150 000 (quick) / 1 500 000 (thorough) further parses of one long sentence and one ill-formed string in the same process (same answer every time); strings = sentences of the path grammar with <= N leaves (N=3 quick, 5 thorough) over ex.a/ex.b/ex.c^/@type in canonical layout, " +
 		"in random whitespace/redundant-parenthesis layouts, and every single-character edit (delete/replace/insert over the 20-character path alphabet) of a sample of them; " +
 		"non-trivial = distinct string on which model or implementation accepts, or a mutant of an accepted sentence that must be rejected"
 	anchored, _ := e.Facts["peg_anchored"].(bool)
@@ -359,6 +359,34 @@ func C16(e *core.Env) {
 		"\u00a0ex.a", "ex.a\v", "ex.a\f", "ex.a / (ex.b | (ex.c / ex.d)^)", "((((((((((ex.a))))))))))", "ex.a" + strings.Repeat(" / ex.a", 40),
 		strings.Repeat("(", 60) + "ex.a" + strings.Repeat(")", 60), strings.Repeat("(", 60) + "ex.a" + strings.Repeat(")", 59)} {
 		try(s, "corner", nil)
+	}
+	// histories: what ParsePath answers for a string does not depend on how many strings the process parsed before
+	// (a long-lived embedder parses the paths of every profile again and again)
+	{
+		long := "( ex.a / ex.b | ex.c ^ ) / ( ( ex.a | ex.b ) / ex.c | @type ) / ex.a / ex.b / ex.c / ( ex.a | ex.b | ex.c )"
+		bad := "ex.a / / ex.b"
+		first, firstBad := implParse(long), implParse(bad)
+		n := e.Pick(150000, 1500000)
+		for i := 0; i < n; i++ {
+			var got sx.V
+			if i%50 == 49 {
+				got = implParse(bad)
+				if got.String() != firstBad.String() {
+					res.Violate("impl-violates-property", fmt.Sprintf("ParsePath answers differently for %q after %d earlier parses in the process", bad, i),
+						map[string]any{"string": bad, "first_answer": firstBad.String(), "answer_now": got.String(), "earlier_parses_in_this_history": i, "replay_go": fmt.Sprintf("for i := 0; i < %d; i++ { path.ParsePath(%q) }; path.ParsePath(%q)", i, long, bad)})
+					break
+				}
+				continue
+			}
+			got = implParse(long)
+			if got.String() != first.String() {
+				res.Violate("impl-violates-property", fmt.Sprintf("ParsePath answers differently for a sentence after %d earlier parses in the process", i),
+					map[string]any{"string": long, "first_answer": first.String(), "answer_now": got.String(), "earlier_parses_in_this_history": i, "replay_go": fmt.Sprintf("for i := 0; i <= %d; i++ { path.ParsePath(%q) }", i, long)})
+				break
+			}
+		}
+		res.Case("history|repeated-parses", true)
+		res.Count("stream=history")
 	}
 	res.Sample(map[string]any{"mutant_example": "ex.a / / ex.b", "expected": "reject"})
 	res.Count(fmt.Sprintf("mutants_generated"))
